@@ -13,6 +13,8 @@
 // last phase goes through SendSnapshot (snapshot sender / snapshot handler) instead.
 // With codec v2chaos the LAST phase is sent while the connections are being cut again and again: loss is
 // legitimate there; judged (chaos=ok) is that every message the receiver gets is one of those sent, at most as often.
+// With codec v2slow the receiver's Raft.Process sleeps 300 ms on the first message of the (single, >= 220 message)
+// phase while the rest arrives: the order of delivery is still compared with the order sent.
 // Output: unreach=<n> | app=(..) other=(..) snap=(..) | ...   (per phase; app and other in arrival order,
 // snap sorted) and finally snapdb=<bytes the receiver's snapshot saver got | ->.
 package main
@@ -41,15 +43,21 @@ import (
 )
 
 type recRaft struct {
-	mu      sync.Mutex
-	got     []raftpb.Message
-	unreach int
+	mu       sync.Mutex
+	got      []raftpb.Message
+	unreach  int
+	slowNext time.Duration // Process sleeps this long on the next message it gets (slow-receiver phase)
 }
 
 func (r *recRaft) Process(ctx context.Context, m raftpb.Message) error {
 	r.mu.Lock()
 	r.got = append(r.got, m)
+	slow := r.slowNext
+	r.slowNext = 0
 	r.mu.Unlock()
+	if slow > 0 {
+		time.Sleep(slow) // a busy raft group: the message is recorded first, then the step takes long
+	}
 	return nil
 }
 func (r *recRaft) IsPeerRemoved(id uint64) bool { return false }
@@ -184,6 +192,13 @@ func runNet(c *kase) string {
 			}
 		}
 		before := recv.r.count()
+		if c.codec == "v2slow" {
+			// slow receiver: raft takes 300 ms over the first message of the burst while the rest of the burst
+			// arrives on the same connection; the order in which raft gets the messages must still be the order sent
+			recv.r.mu.Lock()
+			recv.r.slowNext = 300 * time.Millisecond
+			recv.r.mu.Unlock()
+		}
 		if c.codec == "v2chaos" && pi == len(phases)-1 {
 			send.r.mu.Lock()
 			stableUnreach = send.r.unreach // reports during the churn are legitimate
@@ -293,6 +308,26 @@ func lastSnap(ms []raftpb.Message) int {
 // genNet: phases of one direction of traffic between two nodes: a well-formed msgappv2 sequence cut into
 // phases right before a message that would continue the cursor, interleaved with messages of other types
 // (message stream) and snapshots (pipeline); optionally one snapshot through SendSnapshot with a db payload.
+// genSlow: one burst of 220-320 appends of two raft groups interleaved on one connection, for a receiver whose
+// raft is slow on the first of them.
+func genSlow(r *hx.Rng) (local, remote uint64, phases [][]raftpb.Message) {
+	local, remote = uint64(2+r.Pick(3)), uint64(6+r.Pick(3))
+	gs := genGroups(r, local, remote, 2)
+	for gs[0].from.GroupId == gs[1].from.GroupId && gs[0].from.RaftReplicaId == gs[1].from.RaftReplicaId {
+		gs = genGroups(r, local, remote, 2)
+	}
+	var ms []raftpb.Message
+	for k := 220 + r.Pick(100); k > 0; k-- {
+		g := gs[r.Pick(2)]
+		nent := r.Pick(2)
+		ms = append(ms, g.app(r, g.last, g.term, nent, func(t, ix uint64) raftpb.Entry {
+			return raftpb.Entry{Term: t, Index: ix, Data: []byte{byte(ix), byte(ix >> 8)}}
+		}))
+		g.last += uint64(nent)
+	}
+	return local, remote, [][]raftpb.Message{ms}
+}
+
 func genNet(r *hx.Rng) (codec string, local, remote uint64, phases [][]raftpb.Message, db string) {
 	codec = "v2"
 	var apps []raftpb.Message
